@@ -423,16 +423,18 @@ def run_impl(cases):
                 p.write_text(text, encoding="utf8")
                 sib_paths.append(p)
             transitive = []
+            # the documented default of allow_unregulated_fixed_port_id is False: when the case wants False the keyword is
+            # left out for half of the cases, so that the public default itself is under test
+            kw = {} if (not case["allow"] and case.get("default_flag", False)) else {"allow_unregulated_fixed_port_id": case["allow"]}
+            # lookup_directories defaults to None: leave it out as well when there is nothing to look up
+            la = [] if (not lookups and case.get("omit_lookup", False)) else [sorted(lookups)]
             try:
                 if case["api"] == "files-referrer" and ref_paths:
-                    direct, transitive = pydsdl.read_files([ref_paths[0]], [tgt_root], sorted(lookups),
-                                                           allow_unregulated_fixed_port_id=case["allow"])
+                    direct, transitive = pydsdl.read_files([ref_paths[0]], [tgt_root], *la, **kw)
                 elif case["api"] in ("files", "files-referrer"):
-                    direct, _ = pydsdl.read_files(sib_paths + [tgt_file], [tgt_root], sorted(lookups),
-                                                  allow_unregulated_fixed_port_id=case["allow"])
+                    direct, _ = pydsdl.read_files(sib_paths + [tgt_file], [tgt_root], *la, **kw)
                 else:
-                    direct = pydsdl.read_namespace(tgt_root, sorted(lookups),
-                                                   allow_unregulated_fixed_port_id=case["allow"])
+                    direct = pydsdl.read_namespace(tgt_root, *la, **kw)
                 o = {"verdict": "accept"}
                 i = case["id"]
                 want = ".".join([i["root"]] + list(i["ns"]) + [i["short"]])
@@ -1292,6 +1294,10 @@ def finish(rng, case):
                 case["api"] = "files-referrer"
         else:
             case["referrers"] = "none"
+    if "omit_lookup" not in case:
+        case["omit_lookup"] = rng.random() < 0.5
+    if "default_flag" not in case:
+        case["default_flag"] = (not case["allow"]) and rng.random() < 0.5
     if "siblings" not in case:
         usable = [d for d in case["deps"] if not d["service"]]
         case["siblings"] = rng.choice(["before", "after", "both", "both"]) if usable and rng.random() < 0.6 else "none"
@@ -1541,7 +1547,8 @@ def describe(case, obs):
     v = "accepted" if obs["verdict"] == "accept" else "rejected" if obs["verdict"] == "InvalidDefinition" else "other:" + obs["verdict"]
     tags = case["tags"]
     planted = [t for t in tags if not t.startswith("boundary:") and t not in ("soup", "shuffle")]
-    keys = ["verdict:" + v, "api:" + case["api"], "referrers:" + case.get("referrers", "none"), "siblings:" + case.get("siblings", "none"), "ending:" + case["ending"], "decor:" + case.get("decor", "plain"), "allow_unregulated:%s" % case["allow"],
+    keys = ["verdict:" + v, "api:" + case["api"], "referrers:" + case.get("referrers", "none"), "siblings:" + case.get("siblings", "none"),
+            "flag:" + ("default(omitted)" if (not case["allow"] and case.get("default_flag")) else "explicit-%s" % case["allow"]), "ending:" + case["ending"], "decor:" + case.get("decor", "plain"), "allow_unregulated:%s" % case["allow"],
             "kind:%s" % ("service" if len(case["sections"]) == 2 else "message" if len(case["sections"]) == 1 else "3+sections"),
             "deps:%d" % min(len(case["deps"]), 3)]
     if not tags:
@@ -1593,7 +1600,8 @@ def shrink(case):
 
 RULE = ("a case is one definition in abstract form (identity, statements per section, dependencies) rendered to DSDL text, written "
         "with its dependencies into a scratch root namespace (plus lookup namespaces) and read with read_namespace (80 %) or "
-        "read_files (20 %), allow_unregulated_fixed_port_id both ways; a third of the message definitions are accompanied by valid "
+        "read_files (20 %), allow_unregulated_fixed_port_id both ways (when False, the keyword is omitted for half of the cases so that "
+        "the documented default is under test); a third of the message definitions are accompanied by valid "
         "definitions of the same namespace that refer to them and are processed before and/or after them (or are the only file given to "
         "read_files), so that a violating definition must be rejected whatever the processing order; 60 % of the definitions with dependencies are "
         "accompanied by valid sibling definitions that use the same dependencies (directly and through arrays) and are processed "
